@@ -31,20 +31,39 @@ class RefBase:
     def live(self, i):
         return self.futs[i] == ("P",)
 
-    def timer(self, i):
+    def timer(self, i, kind="td"):
         self.seq += 1
-        self.timers.append((self.now + TIMEOUT, self.seq, i))
+        self.timers.append((self.now + (0.0 if kind == "zero" else TIMEOUT), self.seq, i))
+
+    def fire_due(self):
+        """Timers whose deadline is not in the future fire without time passing (zero timeouts)."""
+        due = sorted(t for t in self.timers if t[0] <= self.now + 1e-9)
+        self._fire(due)
+        self.timers = [t for t in self.timers if t[0] > self.now + 1e-9 and self.live(t[2])]
 
     def on_timeout(self, i):
         self.futs[i] = self.timeout_state
 
+    def _fire(self, due):
+        """Fire due timers grouped by deadline: timers with the same deadline expire together (in one
+        loop iteration), before any of the affected waiters' continuations run."""
+        i = 0
+        while i < len(due):
+            j = i
+            while j < len(due) and abs(due[j][0] - due[i][0]) < 1e-9:
+                j += 1
+            self.now = max(self.now, due[i][0])
+            self.on_timeouts([t[2] for t in due[i:j] if self.live(t[2])])
+            i = j
+
+    def on_timeouts(self, idxs):
+        for i in idxs:
+            self.on_timeout(i)
+
     def advance(self):
         target = self.now + STEP
         due = sorted(t for t in self.timers if t[0] <= target + 1e-9)
-        for t in due:
-            self.now = max(self.now, t[0])
-            if self.live(t[2]):
-                self.on_timeout(t[2])
+        self._fire(due)
         self.timers = [t for t in self.timers if t[0] > target + 1e-9 and self.live(t[2])]
         self.now = target
 
@@ -95,7 +114,7 @@ class RefSem(RefBase):
             else:
                 self.waiters.append(i)
                 if op[1] is not None:
-                    self.timer(i)
+                    self.timer(i, op[1])
             return None
         if op[0] == "rel":
             if self.bounded and self.v >= self.initial:
@@ -127,7 +146,7 @@ class RefCond(RefBase):
             i = self.new()
             self.waiters.append(i)
             if op[1] is not None:
-                self.timer(i)
+                self.timer(i, op[1])
             return None
         if op[0] == "notify":
             n = op[1]
@@ -163,19 +182,45 @@ class RefEvent(RefBase):
             else:
                 self.waiters.append(i)
                 if op[1] is not None:
-                    self.timer(i)
+                    self.timer(i, op[1])
+            return None
+        if op[0] == "wait_set":
+            i = self.new()
+            if self.flag:
+                self.futs[i] = ("R", "waited")
+            else:
+                self.waiters.append(i)
+                self.setters = getattr(self, "setters", set()) | {i}
+                self.timer(i, "td")
             return None
         if op[0] == "set":
             self.flag = True
             for w in self.waiters:
                 if self.live(w):
-                    self.futs[w] = ("R", None)
+                    self.futs[w] = ("R", "waited") if w in getattr(self, "setters", ()) else ("R", None)
             self.waiters = []
             return None
         if op[0] == "clear":
             self.flag = False
             return None
         raise AssertionError(op)
+
+    def on_timeouts(self, idxs):
+        setters = getattr(self, "setters", ())
+        any_setter = False
+        for i in idxs:
+            if i in setters:
+                # the consumer catches its TimeoutError and sets the event at once
+                self.futs[i] = ("R", "timed-out-then-set")
+                any_setter = True
+            else:
+                self.futs[i] = self.timeout_state
+        if any_setter:
+            self.flag = True
+            for w in self.waiters:
+                if self.live(w):
+                    self.futs[w] = ("R", "waited") if w in setters else ("R", None)
+            self.waiters = []
 
     def probes(self):
         return (self.flag, len([w for w in self.waiters if self.live(w)]))
@@ -254,7 +299,7 @@ class RefQueue(RefBase):
             else:
                 self.putters.append((op[1], i))
                 if op[2] is not None:
-                    self.timer(i)
+                    self.timer(i, op[2])
             return None
         if name == "put_nowait":
             return self.put_nowait(op[1])
@@ -266,7 +311,7 @@ class RefQueue(RefBase):
             else:
                 self.getters.append(i)
                 if op[1] is not None:
-                    self.timer(i)
+                    self.timer(i, op[1])
             return None
         if name == "get_nowait":
             return self.get_nowait()
@@ -287,7 +332,7 @@ class RefQueue(RefBase):
             else:
                 self.joins.append(i)
                 if op[1] is not None:
-                    self.timer(i)
+                    self.timer(i, op[1])
             return None
         raise AssertionError(op)
 
@@ -342,11 +387,13 @@ class RealAdapter:
         self.kinds = []
 
     def timeout_arg(self, t):
-        """t is None | 'td' (timedelta) | 'abs' (absolute deadline)."""
+        """t is None | 'td' (timedelta) | 'abs' (absolute deadline) | 'zero' (timedelta(0): expire at once)."""
         if t is None:
             return None
         if t == "abs":
             return self.world.ioloop.time() + TIMEOUT
+        if t == "zero":
+            return datetime.timedelta(0)
         return datetime.timedelta(seconds=TIMEOUT)
 
     def apply(self, op):
@@ -363,6 +410,18 @@ class RealAdapter:
                 o.notify(op[1])
             elif name == "notify_all":
                 o.notify_all()
+            elif name == "wait_set":
+                import asyncio
+                from tornado import gen as _gen
+
+                async def consumer():
+                    try:
+                        await o.wait(datetime.timedelta(seconds=TIMEOUT))
+                    except _gen.TimeoutError:
+                        o.set()
+                        return "timed-out-then-set"
+                    return "waited"
+                self.futs.append(self.world.loop.create_task(consumer()))
             elif name == "set":
                 o.set()
             elif name == "clear":
@@ -381,9 +440,9 @@ class RealAdapter:
                 self.futs.append(o.join(self.timeout_arg(op[1])))
             else:
                 raise AssertionError(op)
-        except AssertionError:
+        except (AssertionError, KeyboardInterrupt, SystemExit):
             raise
-        except Exception as e:
+        except BaseException as e:      # incl. CancelledError escaping from the object under test
             return ("raise", type(e).__name__)
         finally:
             while len(self.kinds) < len(self.futs):
@@ -470,6 +529,10 @@ def run_history(spec, hist, policy="insert_then_get"):
                 rw = ref.apply(op)
                 rr = real.apply(op)
                 w.pump()
+            # zero timeouts expire without time passing
+            ref.fire_due()
+            w.advance(0)
+            w.pump()
             if rr != rw:
                 raise Mismatch(step, "result of %r" % (op,), rr, rw)
             got = [fstate(f) for f in real.futs]
